@@ -65,6 +65,12 @@ def cells(tier):
                             cid = f"{op.name}|{da}{R.sysname(sa)}|{db or ''}{R.sysname(sb) if sb else ''}|{order or ''}"
                             out.append({"id": cid, "op": op.name, "da": da, "db": db, "sa": R.sysname(sa),
                                         "sb": R.sysname(sb) if sb else None, "order": order, "fl": fl})
+    # isclose: the symbolic backend answers with an (in)equality of expressions; at numeric points it must decide as the
+    # numeric backends do - true for identical stored coordinates (of either sign), false for clearly different ones
+    for d in (2, 3, 4):
+        for sa in R.SYSTEMS[d]:
+            out.append({"id": f"isclose|{d}{R.sysname(sa)}", "op": "isclose", "group": "isclose", "da": d, "db": d, "sa": R.sysname(sa),
+                        "sb": R.sysname(sa), "order": None, "fl": "gm"[zlib.crc32(R.sysname(sa).encode()) % 2] + "g"})
     return out
 
 
@@ -169,9 +175,66 @@ def _real(g):
     return g
 
 
+def _isclose_case(cell, case, ctx):
+    import sympy
+
+    d = cell["da"]
+    sa = opcheck.parse_system(cell["sa"])
+    fa = cell["fl"][0] == "m"
+    variant = f"{d}{cell['sa']}"
+
+    def fail(kind, msg):
+        ctx.fail(kind, f"isclose {variant} [sympy]: {msg}", op="isclose", variant=variant, backend="sympy")
+
+    V, syms_a = _sympy_vec(sa, "a", fa)
+    W, syms_b = _sympy_vec(sa, "b", False)
+    forms = {"isclose(w)": lambda: V.isclose(W), "isclose(w, rtol=1e-06, atol=1e-09)": lambda: V.isclose(W, rtol=1e-06, atol=1e-09),
+             "isclose(w, 1e-05, 1e-08)": lambda: V.isclose(W, 1e-05, 1e-08)}
+    exprs = {}
+    for nm, f in forms.items():
+        try:
+            exprs[nm] = f()
+        except Exception as e:  # noqa: BLE001
+            fail("exception", f"{nm} raised {type(e).__name__}: {e!s:.200}")
+            return
+    for p in case["points"]:
+        a, _ = opcheck.canon(p, d, d)
+        if not R.representable(sa, a) or not (R.rho2(a) > 0) or (d == 4 and not (a[3] > 0 and R.tau2(a) > 0)):
+            ctx.exclude("outside_sympy_domain")
+            continue
+        st_a = [float(x) for x in R.from_cartesian(sa, a)]
+        if any(abs(x) < 1e-3 for x in st_a):
+            ctx.exclude("decision_margin")
+            continue
+        for k in range(-1, len(st_a)):
+            # k = -1: identical operands; otherwise coordinate k differs by 30 %
+            st_b = [x * (1.3 if i == k else 1.0) for i, x in enumerate(st_a)]
+            va = mpbackend.make(sa, tuple(st_a), fa, False)
+            vb = mpbackend.make(sa, tuple(st_b), False, False)
+            want = bool(va.isclose(vb))
+            if want != (k == -1):
+                ctx.exclude("numeric_backend_disagrees_with_construction")
+                continue
+            subs = {s_: sympy.Rational(v) for s_, v in zip(syms_a + syms_b, st_a + st_b)}
+            for nm, ex in exprs.items():
+                ctx.evaluation()
+                try:
+                    got = bool(ex.subs(subs)) if not isinstance(ex, bool) else ex
+                except Exception as e:  # noqa: BLE001
+                    fail("undecided", f"{nm} = {str(ex)[:160]} does not evaluate to a truth value at a={st_a} b={st_b}: {e!s:.120}")
+                    return
+                if got != want:
+                    fail("bool", f"{nm} evaluates to {got} at stored a={st_a} b={st_b}; the object backend says {want}")
+                    return
+            ctx.nontrivial(key=[cell["id"], st_a, k], sample={"stored_a": st_a, "differs_in": k})
+    ctx.evaluations -= 1
+
+
 def check_case(cell, case, ctx):
     import sympy
 
+    if cell.get("group") == "isclose":
+        return _isclose_case(cell, case, ctx)
     op = OPS[cell["op"]]
     da, db = cell["da"], cell["db"]
     sa = opcheck.parse_system(cell["sa"])
